@@ -238,9 +238,14 @@ func (e *Exec) raceTracked(o *Object) bool {
 	if !ok {
 		return false
 	}
-	switch n.Obj().Name() {
-	case "Tunnel", "Router":
-		return n.Obj().Pkg() != nil && n.Obj().Pkg().Name() == "knx"
+	if n.Obj().Pkg() == nil {
+		return false
+	}
+	switch n.Obj().Pkg().Name() {
+	case "knx":
+		return n.Obj().Name() == "Tunnel" || n.Obj().Name() == "Router"
+	case "dpt":
+		return strings.HasPrefix(n.Obj().Name(), "DPT_") // datapoint instances (C19: instances share no state)
 	}
 	return false
 }
